@@ -9,7 +9,9 @@ class Leaf(HasTraits):
     grid = List(Any)          # holds plain lists: a deep copy must not share them
 
 
-class Obj(HasTraits):
+class ObjCore(HasTraits):
+    """everything but the attributes that make a class a LISTENER class (legacy depends_on, deferred attributes): the
+    constructor and __setstate__ take a shorter route for such classes"""
     n = Int
     xs = List(Int)
     nested = List(List(Int))
@@ -22,15 +24,6 @@ class Obj(HasTraits):
     obs_count = Int(transient=True)
     post_count = Int(transient=True)
     total = Property(Int, observe="xs.items")
-    total2 = Property(Int, depends_on="xs[]")      # legacy dependency declaration, cached
-    cgrid = DelegatesTo("child", "grid")           # a deferred attribute whose target is a container of containers
-    seen_total2 = Int(transient=True)
-    pv = PrototypedFrom("child", "value")          # reads child.value until it is given a value of its own (also a falsy one)
-
-    def _n_changed(self):
-        # a static handler of a trait copied BEFORE xs that reads the cached property (also while the object is being
-        # filled in by copy_traits / clone_traits / __setstate__)
-        self.seen_total2 = self.total2
 
     @observe("xs.items")
     def _count_items(self, event):
@@ -44,6 +37,23 @@ class Obj(HasTraits):
     def _get_total(self):
         return sum(self.xs)
 
+
+
+class Obj(ObjCore):
+    total2 = Property(Int, depends_on="xs[]")      # legacy dependency declaration, cached
+    cgrid = DelegatesTo("child", "grid")           # a deferred attribute whose target is a container of containers
+    seen_total2 = Int(transient=True)
+
+    def _n_changed(self):
+        # a static handler of a trait copied BEFORE xs that reads the cached property (also while the object is being
+        # filled in by copy_traits / clone_traits / __setstate__)
+        self.seen_total2 = self.total2
+
     @cached_property
     def _get_total2(self):
         return sum(self.xs)
+
+
+class ObjP(Obj):
+    """Obj with a prototyped attribute (a class WITH delegate listeners; Obj itself has none that need hooking)"""
+    pv = PrototypedFrom("child", "value")          # reads child.value until it is given a value of its own (also a falsy one)
